@@ -41,6 +41,9 @@ def pyLog10 (x : α) : α := Transc.log x / Transc.log (n# 10)
 def pyHypot (a b : α) : α := Transc.sqrt (a * a + b * b)
 end
 
+/-- `s.endswith(c)` for a one-character `c` -/
+def pyEndsWith1 (s : String) (c : Char) : Bool := s.toList.getLast? == some c
+
 /-- `str.lower()` -/
 def pyLower (s : String) : String := s.toLower
 
